@@ -371,6 +371,33 @@ def accounting_stage(ctx, cov):
     cov["accounting_oracle_failures"] = bad
 
 
+def sweep_stage(ctx, cov):
+    """C11's concurrent clause: the sweeper parked between its lock-free sample and its guarded removal while the
+    key is re-written (with / without TTL), TTL-updated, persisted, deleted or left alone"""
+    ok, out = cargo_build(ctx, ["conc"])
+    if not ok:
+        return
+    outs = run_conc(ctx, 4, ["cases=0", "sweeps=%d" % (25 if ctx.tier == "quick" else 600)])
+    n = bad = 0
+    kinds = {}
+    for o in outs:
+        if "crash" in o:
+            violation(ctx, "conc harness did not finish: " + o["crash"], o["crash"], tag="crash")
+            continue
+        for k, v in o["meta"]["kinds"].items():
+            if k.startswith("sweep race"):
+                kinds[k] = kinds.get(k, 0) + v
+        n += o["meta"]["kinds"].get("sweep race case", 0)
+        for f in o["fails"]:
+            if f["prop"] == "C11":
+                bad += 1
+                if bad <= 2:
+                    violation(ctx, "expiry under concurrency: " + f["what"], "# re-run: harness/target/release/conc --seed %d cases=0 sweeps=...\n# %s\n" % (ctx.seed * 1000 + outs.index(o), f["what"]), tag="sweep")
+    ctx.log("sweep stage: %d sweeper / writer races, %d failures" % (n, bad))
+    cov["sweeper_races"] = kinds
+    cov["sweeper_race_failures"] = bad
+
+
 def scan_stage(ctx, cov):
     """C14's concurrent clauses: range queries parked at every iteration while keys around them are
     inserted and deleted; the Lean scan model must predict when each scan returns and what, and the
